@@ -119,8 +119,8 @@ def coro_source(prog, is_async, low):
 
 def run(ck: common.Check, replay=None):
     ck.check_props("C04_Properties.v")
-    n_seq = 28 if ck.tier == "quick" else 600
-    n_coro = 16 if ck.tier == "quick" else 300
+    n_seq = 28 if ck.tier == "quick" else 160
+    n_coro = 16 if ck.tier == "quick" else 100
     variants = [(a, l) for a in (False, True) for l in (False, True)]
     items = []
     for k in range(n_seq):
